@@ -234,6 +234,19 @@ pub fn s_amt() -> Vec<WCfg> {
                 }
             }
         }
+        // the onion's forward_msat is sender-controlled and need not equal what the HTLC really carries
+        for (vn, amt, fwd) in [("fwd-exceeds-amount", 1_000u64, 502_500u64), ("fwd-below-amount", 502_500, 1_000)] {
+            if pi > 0 {
+                continue;
+            }
+            let mut c = mk(&format!("fixed/{}", vn));
+            let inv = c.add_invoice(&InvoiceSpec::fixed(1, amount));
+            for n in ["w1", "w2"] {
+                let t = add_htlc_full(&mut c, n, inv, amt, Some(1_005_000), None);
+                c.templates[t].spec.forward_msat = Some(fwd);
+            }
+            out.push(c);
+        }
         // fixed-amount invoice with a conflicting sender-declared amount: not a trampoline payment at all
         for (vn, v) in [("tlv-lower", 100_000u64), ("tlv-higher", 5_000_000)] {
             let mut c = mk(&format!("fixed/{}", vn));
